@@ -17,8 +17,8 @@ F == INSTANCE FramingFn WITH HL <- 12, BodyLen <- RealBodyLen
 PF == INSTANCE FramingProxy WITH HL <- 12, BodyLen <- RealBodyLen, LineOK <- ProxyLineOK,
          stream <- <<>>, net <- <<>>, buf <- <<>>, phase <- "line", curh <- <<>>, delivered <- <<>>, st <- "running"
 
-VARIABLES l, sc, cur, invs, cnt
-vars == << l, sc, cur, invs, cnt >>
+VARIABLES l, sc, cur, invs, nwr, cnt
+vars == << l, sc, cur, invs, nwr, cnt >>
 Tags(conds) == { c[2] : c \in { x \in conds : x[1] } }
 
 RECURSIVE Cat(_,_)
@@ -42,14 +42,20 @@ Judge(e) ==
              << P.st = "clean" /\ cur.end = "eof" /\ ~e.closed, "C05" >>,
              << P.st \in {"clean", "failed"} /\ cur.end = "idle" /\ e.closed, "C05" >> })
 
-Init == l = 1 /\ sc = "" /\ cur = NoStream /\ invs = <<>> /\ cnt = [streams |-> 0, packets |-> 0, cut |-> 0, refused |-> 0, failed |-> 0, proxy |-> 0, badline |-> 0]
+Init == l = 1 /\ sc = "" /\ cur = NoStream /\ invs = <<>> /\ nwr = 0 /\ cnt = [streams |-> 0, packets |-> 0, cut |-> 0, refused |-> 0, failed |-> 0, proxy |-> 0, badline |-> 0]
 Next ==
    /\ l <= N /\ l' = l + 1
    /\ LET e == Tr[l] IN
-      CASE e.e = "reset" -> sc' = e.sc /\ cur' = NoStream /\ invs' = <<>> /\ cnt' = cnt
-        [] e.e = "stream" -> cur' = e /\ invs' = <<>> /\ UNCHANGED << sc, cnt >>
-        [] e.e = "inv" /\ cur.n >= 0 -> invs' = Append(invs, e) /\ UNCHANGED << sc, cur, cnt >>
+      CASE e.e = "reset" -> sc' = e.sc /\ cur' = NoStream /\ invs' = <<>> /\ nwr' = 0 /\ cnt' = cnt
+        [] e.e = "stream" -> cur' = e /\ invs' = <<>> /\ nwr' = 0 /\ UNCHANGED << sc, cnt >>
+        [] e.e = "inv" /\ cur.n >= 0 ->
+             \* C07 on pipelined requests (several packets per read): the reply to a request is written before the next
+             \* request is handed to a handler (every stream packet is answered exactly once by the scripted handler)
+             /\ (IF nwr # Len(invs) /\ ~IsProxy THEN PrintT(<< "PV", {"C07"}, sc, l, "stream" >>) ELSE TRUE)
+             /\ invs' = Append(invs, e) /\ UNCHANGED << sc, cur, nwr, cnt >>
+        [] e.e = "wr" /\ cur.n >= 0 -> nwr' = nwr + 1 /\ UNCHANGED << sc, cur, invs, cnt >>
         [] e.e = "send" /\ cur.n >= 0 ->
+             /\ (IF nwr # Len(invs) /\ ~IsProxy THEN PrintT(<< "PV", {"C07"}, sc, l, "stream" >>) ELSE TRUE)    \* at rest: every delivered request has its reply
              /\ LET t == Judge(e) IN IF t = {} THEN TRUE
                                      ELSE IF IsProxy THEN PrintT(<< "DIV", sc, l, "proxy-mode stream differs from FramingProxy!ParseProxy" >>)
                                      ELSE PrintT(<< "PV", t, sc, l, "stream" >>)
@@ -57,8 +63,8 @@ Next ==
                 cnt' = [cnt EXCEPT !.streams = @ + 1, !.packets = @ + Len(invs), !.cut = @ + Len(cur.cuts),
                                    !.refused = IF P.st = "refused" THEN @ + 1 ELSE @, !.failed = IF P.st = "failed" THEN @ + 1 ELSE @,
                                    !.proxy = IF IsProxy THEN @ + 1 ELSE @, !.badline = IF P.st = "badline" THEN @ + 1 ELSE @]
-             /\ UNCHANGED << sc, cur, invs >>
-        [] OTHER -> UNCHANGED << sc, cur, invs, cnt >>
+             /\ UNCHANGED << sc, cur, invs, nwr >>
+        [] OTHER -> UNCHANGED << sc, cur, invs, nwr, cnt >>
 Spec == Init /\ [][Next]_vars
 Done == IF l = N + 1 THEN PrintT(<< "CNT", cnt >>) ELSE TRUE
 Final == TLCGet("stats").diameter - 1 = N \/ (PrintT(<< "SHORT", TLCGet("stats").diameter - 1, N >>) /\ FALSE)
